@@ -293,6 +293,21 @@ impl Exec {
                 let r = guarded(std::panic::AssertUnwindSafe(|| store.annotate(b)));
                 ok_or_err(r, |h| h.as_usize().to_string())
             }
+            // `st batch id^target^data… …`: AnnotationStore::annotate_from_iter
+            "batch" if t.len() >= 3 => {
+                let mut builders = vec![];
+                for item in &t[2..] {
+                    let f: Vec<&str> = item.split('^').collect();
+                    if f.len() < 2 { return "bad-op".into(); }
+                    let mut b = AnnotationBuilder::new();
+                    if f[0] != "~" { b = b.with_id(f[0]); }
+                    match parse_target(f[1]) { Some(tg) => b = b.with_target(tg), None => return "bad-op".into() }
+                    for d in &f[2..] { match parse_data(d) { Some(db) => b = b.with_data_builder(db), None => return "bad-op".into() } }
+                    builders.push(b);
+                }
+                let r = guarded(std::panic::AssertUnwindSafe(|| store.annotate_from_iter(builders.into_iter())));
+                ok_or_err(r, |hs| hs.iter().map(|h| h.as_usize().to_string()).collect::<Vec<_>>().join(","))
+            }
             // `st protect text|checksum|both|auto`: AnnotationStore::protect_text
             "protect" if t.len() == 3 => {
                 let mode = match t[2] { "text" => TextValidationMode::Text, "checksum" => TextValidationMode::Checksum, "both" => TextValidationMode::Both, _ => TextValidationMode::Auto };
@@ -1265,7 +1280,14 @@ fn run_script_opt(rep: &mut Report, script: &[String], property: Option<&str>, w
         if want("C14") && out == "err" && before_obs != after_obs {
             let what = diff_kind(&before_obs, &after_obs);
             let c = if cls.starts_with("annot") { "annotate" } else { cls.as_str() };
-            rep.fail("oracle", &format!("C14/{}/{}/{}", c, what, last_err()), ctx(), &before_obs, &after_obs);
+            if cls == "batch" {
+                // a refused batch: the elements before the refused one stay (one finding); what the refused element
+                // itself leaves behind is what a refused annotate() leaves behind (named as such)
+                if what.contains("annotation") { rep.fail("oracle", "C14/batch/script/elements-before-the-refused-one-stay", ctx(), &before_obs, &after_obs); }
+                else { rep.fail("oracle", &format!("C14/annotate/{}/{}", what, last_err()), ctx(), &before_obs, &after_obs); }
+            } else {
+                rep.fail("oracle", &format!("C14/{}/{}/{}", c, what, last_err()), ctx(), &before_obs, &after_obs);
+            }
         }
         // C02: removal removes exactly the documented dependants and always succeeds on existing items
         if let Some((closure, modified)) = &expected_rm {
@@ -1737,6 +1759,28 @@ pub fn run(opts: &Opts) -> Report {
                     rep.fail("oracle", &format!("C14/batch/{}/{}", howname, if kept { "elements-before-the-refused-one-stay" } else { "store-changed" }), ctx, "the store as it was", &format!("{} ({})", if kept { "the annotations before the refused element are in the store" } else { "something else changed" }, e.chars().take(100).collect::<String>()));
                 },
             }
+        }
+        // ---- the same through the script language, so that the Lean store model (annotateAll) answers too ----
+        for i in 0..(if opts.thorough() { 300 } else { 40 }) {
+            let mut g = Gen { rng: Rng::new(opts.seed.wrapping_mul(5_000_011).wrapping_add(i as u64)), rich: false, force_ids: true, res: vec![], sets: vec![], keys: vec![], anns: vec![], nann: 0, data_ids: vec![], next_id: 0, temp_shaped_ids: false };
+            let mut script: Vec<String> = vec!["st addres r0 9".into(), "st addres r1 7".into(), "st adddata s0 d0 k0 s:v0".into()];
+            let nops = g.rng.below(5);
+            script.extend((0..nops).map(|_| g.op()));
+            let n = 1 + g.rng.below(4);
+            let badpos = g.rng.below(n + 1);   // == n: every element is fine
+            let mut items: Vec<String> = vec![];
+            for k in 0..n {
+                if k == badpos {
+                    items.push(g.rng.pick(&["bad^T:nores:b0:b1^s0/k0/s:v0", "bad^T:r0:b100:b200", "bt0^T:r0:b3:b4^s0/k0/s:w", "bad^M[T:r1:b0:b2;T:nores:b0:b1]", "bad^T:r1:b1:b3^s0/~/~/nodata", "bad^A:nosuch"]).to_string());
+                } else {
+                    items.push(format!("bt{}^T:r{}:b{}:b{}^s0/k{}/s:v{}", k, k % 2, k, k + 2, k % 2, k));
+                }
+            }
+            script.push(format!("st batch {}", items.join(" ")));
+            script.push(format!("st annot after T:r0:b0:b1 s0/k0/s:v0"));
+            rep.count(if badpos < n { "batch-script:with-a-refused-element" } else { "batch-script:all-accepted" });
+            rep.case(Some(&script.join("|")));
+            run_script(&mut rep, &script, property);
         }
         std::fs::remove_dir_all(&dir).ok();
     }
